@@ -42,6 +42,7 @@ type Scenario struct {
 	// C17
 	FailModule int    // index of the file that fails (-1: none)
 	FailKind   string // "gen-reserved", "gen-goname" or "compile"
+	Twin       [2]int // C17: 1-based indices of two files that map to one package (x.thrift and x)
 	StaleOut   bool // C17: the package directories below --out hold files of an earlier generation
 	// DotDotName: the root Thrift file is called "...thrift" (its module name is ".."): whether
 	// such a run fails is not for the check to say, only that nothing leaves the output directory
@@ -248,6 +249,11 @@ func genScenario(o world.Opts) *Scenario {
 		}
 		sc.Plugins = append(sc.Plugins, genScript(name, faultP, i))
 		sc.Plugins[i].ModSuffix = "/" + sc.Prog.Files[0].RelPath() // genC17 may move the file and sets this again
+	}
+	if o.Prop != "C17" && np >= 2 && simrt.Flip("c16.case-twin-files", 0.1) {
+		// two plugins answer with files whose names differ only in letter case: two files
+		sc.Plugins[0].Files = append(sc.Plugins[0].Files, GenFile{Path: "plug_case/Client.go", Content: "package plug // upper\n"})
+		sc.Plugins[1].Files = append(sc.Plugins[1].Files, GenFile{Path: "plug_case/client.go", Content: "package plug // lower\n"})
 	}
 	if o.Prop == "C17" {
 		if np >= 2 && simrt.Flip("c17.same-plugin-twice", 0.15) {
